@@ -29,6 +29,7 @@ class Graph:
         self.out = []          # node -> list of edge ids
         self.edges = []        # (u, v, actor, label, obs)
         self.seen = set()
+        self.partial = False   # from simulation: terminal nodes are not meaningful
 
     def node(self, a, b):
         k = (a, b)
@@ -50,7 +51,7 @@ class Graph:
         self.edges.append((u, v, rec[5], rec[6], obs))
 
 
-def run_tlc_graph(spec, cfg, workers=8, metadir=None, timeout=3600, cwd=None, keep_log=None, env=None):
+def run_tlc_graph(spec, cfg, workers=8, metadir=None, timeout=3600, cwd=None, keep_log=None, env=None, simulate=None, sim_seed=1):
     """returns (graph, info) ; info has states, distinct, violated (name or None), error trace text, wall"""
     import threading
     metadir = metadir or os.path.join("/verif/build/work", str(os.getpid()), "tlc", "g%d_%d" % (threading.get_ident() % 100000, int(time.time() * 1000) % 100000))
@@ -58,7 +59,13 @@ def run_tlc_graph(spec, cfg, workers=8, metadir=None, timeout=3600, cwd=None, ke
     g = Graph()
     info = {"states": 0, "distinct": 0, "violated": None, "ok": False, "log": []}
     t0 = time.time()
-    cmd = ["timeout", str(timeout)] + tlc_cmd(spec, cfg, workers, metadir)
+    # simulate=(num, depth): TLC's random simulation instead of breadth-first search.  Every successor TLC generates along the way is
+    # shipped like in BFS, so the result is a PARTIAL graph (g.partial): nodes without outgoing edges are merely unexpanded
+    if simulate:
+        cmd = ["timeout", str(timeout)] + tlc_cmd(spec, cfg, workers, metadir, simulate=simulate[0], depth=simulate[1], seed=sim_seed)
+        g.partial = True
+    else:
+        cmd = ["timeout", str(timeout)] + tlc_cmd(spec, cfg, workers, metadir)
     p = subprocess.Popen(cmd, stdout=subprocess.PIPE, stderr=subprocess.STDOUT, text=True, cwd=cwd, env=env)
     logf = open(keep_log, "w") if keep_log else None
     for line in p.stdout:
@@ -93,6 +100,9 @@ def run_tlc_graph(spec, cfg, workers=8, metadir=None, timeout=3600, cwd=None, ke
     if logf:
         logf.close()
     info["rc"] = p.returncode
+    if simulate and p.returncode == 0:
+        info["ok"] = True
+        info["distinct"] = len(g.out); info["states"] = len(g.edges)
     info["wall"] = time.time() - t0
     shutil.rmtree(metadir, ignore_errors=True)
     return g, info
@@ -300,6 +310,8 @@ def analyse(g):
         out.append(dict(kind="inv", name=name, taints=list(taints), path=finish_locals(path_to_node(g, parent, g.edges[ei][0]) + [ei]), label=g.edges[ei][3]))
     stuck = {}
     for v in range(len(g.out)):
+        if getattr(g, "partial", False):
+            break
         if not g.out[v] and v in indeg_obs:
             ei, obs = indeg_obs[v]
             if obs.get("done") is False:
